@@ -719,3 +719,44 @@ void h_Operator_mulassign_d_inv(void)
   Operator_mulassign_d(a, alpha);
   REACH("exit");
 }
+
+/* ---------------------------------------------------------------------------------------------------------------------
+ * FINDINGS (harnesses left failing on purpose, reproduced natively with g++ against /repo):
+ *  h_Operator_addassign_d_inv: Operator_addassign_d.postcondition.4 -- operator+=(alpha) (and -=) inserts a NEW constant term
+ *     without the near-zero test: `Operator A; A += 0.0;` gives isEmpty()==false, A==Operator() false, prints "0".
+ *  h_Operator_mulassign_d_inv: Operator_mulassign_d.postcondition.4 -- operator*=(alpha) does not erase products below 100 eps:
+ *     n(0)*1e-10*1e-10 keeps the monomial with coefficient 1e-20 (isEmpty false, != Operator(), commutes(c(0)) false).
+ *  Both break "a stored coefficient is never below 100*epsilon", which operator== / isEmpty / commutes rely on.
+ * NOT DONE: Operator::normalize_and_insert / operator*=(Operator) (bounded stand-in per concrete operator string).
+ *
+ * MUTATION LOG (all killed unless noted):
+ *  actRight: `j<ind` -> `j<=ind`                         Operator_actRight.loop_invariant_step.1/.6 (inner loop), undefined-shift.11
+ *  actRight: `!bra[ind]` -> `bra[ind]` (annihilation)    Operator_actRight.postcondition.2/.3, loop_invariant_step.12/.15
+ *  actRight: `bra[ind] = (op == creation)` negated       Operator_actRight.loop_invariant_step.13
+ *  actRight: `i>=0` -> `i>0`                             Operator_actRight.postcondition.2
+ *  actRight: ERROR value (.., 0) -> (.., 1)              Operator_actRight.postcondition.1
+ *  actRight: `if (bra[j])` -> `if (!bra[j])`             Operator_actRight.loop_invariant_step.3/.8
+ *  N::N: `index<Nmodes` -> `<=`                          OpToken_addassign.assertion.1, N_init1.loop_invariant_step.1/.2
+ *  N::N: start at index=1                                N_init1.postcondition.1, OpToken_addassign.assertion.1
+ *  N::getMatrixElement: count() -> size()                N_getMatrixElement.postcondition.1
+ *  Sz::generateTerms: `-=` -> `+=` (down term)           OpToken_addassign.assertion.2/.3
+ *  Sz::generateTerms: 0.5 -> 1.0                         OpToken_addassign.assertion.3
+ *  Sz::getMatrixElement: up-down -> up+down              Sz_getMatrixElement.postcondition.2
+ *  Sz::getMatrixElement: down loop reads *it_up          Sz_getMatrixElement.postcondition.1/.2, UVecIt_mul.assertion.1/.2
+ *  Sz::getMatrixElement: it_down over SpinUpIndices      UVecIt_mul.assertion.1/.2
+ *  operator==(entry): pre-fix 8a738a7^                   equal_factors.precondition.2 (read past the shorter monomial), MonoEntry_eq.postcondition.1 (prefix equality)
+ *  operator==(entry): `-` -> `+` in the tolerance test   MonoEntry_eq.postcondition.1/.2
+ *  operator==(entry): `==` -> `<=` on the sizes          MonoEntry_eq.postcondition.1
+ *  operator==(entry): drop the std::equal conjunct       UNDECIDED (goto-instrument: contract of equal_factors has no call left) -- not a pass
+ *  operator==(Operator): drop the size test              Operator_eq.postcondition.1, equal_entries.precondition.2
+ *  operator==(Operator): `==` -> `>=` on the sizes       Operator_eq.postcondition.1, equal_entries.precondition.2
+ *  operator==(Operator): negate std::equal               Operator_eq.postcondition.1/.2
+ *  erase_zero_monomial: `<` -> `>`                       h_erase_zero.assertion.1
+ *  operator+=(Operator): `+=` -> `-=`                    Operator_addassign.loop_invariant_step.3
+ *  operator+=(Operator): drop erase_zero_monomial        Operator_addassign.loop_invariant_step.3
+ *  operator-=(Operator): insert +m.second                Operator_subassign.loop_invariant_step.3
+ *  operator+=(alpha): `+=` -> `-=`                       Operator_addassign_d.postcondition.3
+ *  operator-=(alpha): insert +alpha                      Operator_subassign_d.postcondition.3
+ *  operator*=(alpha): `*=` -> `+=`                       Operator_mulassign_d.loop_invariant_step.2
+ *  operator*=(alpha): `<` -> `>` in the clear test       Operator_mulassign_d.postcondition.2/.3
+ * ------------------------------------------------------------------------------------------------------------------- */
